@@ -983,3 +983,22 @@ Lemma repaired_witnesses :
   (let '(_, st) := run_vm return_exit_order true (prog_call w_leaf_ret) 1 0 in v_pos st = 1%N /\ v_safes st = 2%N) /\
   (let '(_, st) := run_vm return_exit_order true (prog_call w_leaf_imp) 1 0 in v_pos st = 1%N /\ v_safes st = 2%N).
 Proof. vm_compute. repeat split; reflexivity. Qed.
+
+(* ------------------------------------------------------------------ every call site of maybe_collect *)
+Lemma sites_covered_ok : sites_covered = true.
+Proof. vm_compute. reflexivity. Qed.
+
+(* for every extracted call site of maybe_collect there is a construct of the model that reaches it, its code is the
+   safepoint instruction, and inside every @no_gc function that instruction (like every other allocation point) only
+   runs at depth > 0 *)
+Lemma every_site_in_region :
+  Forall (fun site =>
+            exists c, site_eqb (construct_site c) site = true /\ construct_code c = KSafe /\
+              forall inl P f t m, f_nogc f = true -> path (emit_fn return_exit_order inl P f) t m -> alloc_pos 0 t)
+         GcRootFields.safepoint_sites.
+Proof.
+  apply Forall_forall. intros site Hin.
+  pose proof sites_covered_ok as H. unfold sites_covered in H. apply andb_true_iff in H as [H _].
+  rewrite forallb_forall in H. specialize (H site Hin). apply existsb_exists in H as (c & _ & Hc).
+  exists c. split; [exact Hc|]. split; [reflexivity|]. intros inl P f t m Hg Hp. eapply region_alloc_pos_lemma; eassumption.
+Qed.
